@@ -1004,6 +1004,87 @@ Proof.
     rewrite <- Hf. apply pass2_module_rel; assumption.
 Qed.
 
+(* the import pass repeated to a fixpoint *)
+Lemma try_rel (m m' : M unit) st st' :
+  Rp st st' -> rel_p (fun _ _ : unit => True) (m st) (m' st') -> rel_p (fun _ _ : unit => True) (try_ m st) (try_ m' st').
+Proof.
+  intros HR H. unfold try_, rel_p in *.
+  destruct (m st) as [[a s]| | |], (m' st') as [[a' s']| | |]; try contradiction; auto.
+Qed.
+
+Lemma for_each_rel {X} (P : X -> X -> Prop) (h h' : X -> M unit) l l' :
+  Forall2 P l l' ->
+  (forall x x' st st', P x x' -> Rp st st' -> rel_p (fun _ _ : unit => True) (h x st) (h' x' st')) ->
+  forall st st', Rp st st' -> rel_p (fun _ _ : unit => True) (for_each h l st) (for_each h' l' st').
+Proof.
+  intros HF Hh. induction HF as [|x x' l l' Hx _ IH]; intros st st' HR; cbn [for_each].
+  - cbn. auto.
+  - eapply relp_bind with (ra := fun _ _ : unit => True); [apply Hh; assumption|].
+    intros _ _ s1 s1' _ HR1. apply IH. assumption.
+Qed.
+
+Lemma quiet_stmt_rel f s s' st st' :
+  alpha_s [] s s' [] -> Rp st st' ->
+  rel_p (fun _ _ : unit => True) (quiet_stmt f s st) (quiet_stmt f s' st').
+Proof.
+  intros Hs HR. pose proof Hs as Hs0. inversion Hs; subst; try (cbn; auto; fail).
+  - (* use *) cbn [quiet_stmt]. apply try_rel; [assumption|]. apply pass2_module_rel; [|assumption].
+    constructor; [assumption|constructor].
+  - (* from use *) cbn [quiet_stmt].
+    eapply for_each_rel; [eassumption| |assumption].
+    intros it it' s1 s1' Hit HR1. apply try_rel; [assumption|]. apply from_imports_rel; [|assumption].
+    constructor; [exact Hit|constructor].
+Qed.
+
+Lemma names_count_map l : fold_right (fun p n => length (snd p) + n) 0 (nss_map l)
+                          = fold_right (fun p n => length (snd p) + n) 0 l.
+Proof.
+  unfold nss_map, ns_map. induction l as [|[k t] l IH]; cbn; [reflexivity|]. rewrite map_length, IH. reflexivity.
+Qed.
+
+Lemma names_count_rel st st' : Rp st st' -> names_count st' = names_count st.
+Proof. intros HR. unfold names_count. rewrite (rp_ns _ _ HR). apply names_count_map. Qed.
+
+Lemma quiet_round_rel p p' :
+  Forall2 (alpha_module fl g is_ns sure_ns) p p' ->
+  forall st st', Rp st st' -> rel_p (fun _ _ : unit => True) (quiet_round p st) (quiet_round p' st').
+Proof.
+  intros Ha. unfold quiet_round. eapply for_each_rel; [exact Ha|].
+  intros m m' st st' (Hf & Hid & Hss) HR. rewrite <- Hf. unfold quiet_pass.
+  eapply for_each_rel; [exact Hss| |assumption].
+  intros s s' s1 s1' Hs HR1. apply quiet_stmt_rel; assumption.
+Qed.
+
+Lemma import_rounds_rel p p' :
+  Forall2 (alpha_module fl g is_ns sure_ns) p p' ->
+  forall n st st', Rp st st' -> rel_p (fun _ _ : unit => True) (import_rounds n p st) (import_rounds n p' st').
+Proof.
+  intros Ha. induction n as [|n IH]; intros st st' HR; cbn [import_rounds]; [exact I|].
+  pose proof (quiet_round_rel _ _ Ha _ _ HR) as Hq.
+  destruct (quiet_round p st) as [[[] s1]| | |], (quiet_round p' st') as [[[] s1']| | |]; try contradiction; auto.
+  destruct Hq as [_ HR1]. rewrite (names_count_rel _ _ HR1), (names_count_rel _ _ HR).
+  destruct (Nat.eqb (names_count s1) (names_count st)); [cbn; auto|apply IH; assumption].
+Qed.
+
+Lemma import_items_rel p p' : Forall2 (alpha_module fl g is_ns sure_ns) p p' -> import_items p = import_items p'.
+Proof.
+  unfold import_items. induction 1 as [|m m' p p' (_ & _ & Hss) _ IH]; cbn; [reflexivity|]. rewrite IH. f_equal.
+  clear IH. induction Hss as [|s s' l l' Hs _ IHl]; cbn; [reflexivity|]. rewrite IHl. f_equal.
+  inversion Hs; subst; cbn; try reflexivity.
+  match goal with HF : Forall2 _ ?a ?b |- length ?a = length ?b => clear - HF; induction HF; cbn; congruence end.
+Qed.
+
+Lemma import_pass_rel b p p' :
+  Forall2 (alpha_module fl g is_ns sure_ns) p p' ->
+  forall st st', Rp st st' ->
+  rel_p (fun _ _ : unit => True) (import_pass b p st) (import_pass b p' st').
+Proof.
+  intros Ha st st' HR. unfold import_pass.
+  eapply relp_bind with (ra := fun _ _ : unit => True).
+  - destruct b; [|cbn; auto]. rewrite <- (import_items_rel _ _ Ha). apply import_rounds_rel; assumption.
+  - intros _ _ s1 s1' _ HR1. apply pass2_rel; assumption.
+Qed.
+
 (* ---------------------------------------------------------------------------------------------- *)
 (* whole programs *)
 
@@ -1011,8 +1092,7 @@ Hypothesis g_start : g "start" = "start".
 
 (* the state after the two namespace passes *)
 Definition passes (ast : past) : res (unit * rstate) :=
-  (_ <- for_each insert_namespace_and_add_definitions ast ;;
-   for_each (fun m => resolve_global_variables (m_file m) (m_stmts m)) ast) (init_state ast).
+  (_ <- for_each insert_namespace_and_add_definitions ast ;; import_pass (imports_fixpoint fl) ast) (init_state ast).
 
 (* `is_ns` over-approximates the namespace names of every file; `sure_ns` under-approximates the
    namespace paths *)
@@ -1056,10 +1136,10 @@ Proof.
   destruct (for_each insert_namespace_and_add_definitions p (init_state p)) as [[[] s1]| | |],
            (for_each insert_namespace_and_add_definitions p' (init_state p')) as [[[] s1']| | |];
     try contradiction; cbn [rel_p res_rel] in *; auto.
-  destruct H1 as [_ HR1]. pose proof (pass2_rel _ _ Ha _ _ HR1) as H2.
+  destruct H1 as [_ HR1]. pose proof (import_pass_rel (imports_fixpoint fl) _ _ Ha _ _ HR1) as H2.
   unfold bind at 1 4.
-  destruct (for_each (fun m => resolve_global_variables (m_file m) (m_stmts m)) p s1) as [[[] s2]| | |],
-           (for_each (fun m => resolve_global_variables (m_file m) (m_stmts m)) p' s1') as [[[] s2']| | |];
+  destruct (import_pass (imports_fixpoint fl) p s1) as [[[] s2]| | |],
+           (import_pass (imports_fixpoint fl) p' s1') as [[[] s2']| | |];
     try contradiction; cbn [rel_p res_rel] in *; auto.
   destruct H2 as [_ [[S1 S2] Hn Hv Hn2 Hns]].
   destruct (Hs _ eq_refl) as [Hsound Hsure]. pose proof (Hs' _ eq_refl) as Hsound'.
